@@ -180,19 +180,19 @@ Qed.
 (** ** one Delete *)
 
 (** the routes a Delete for route [v] of rule [r] removes *)
-Definition hit (r : rule) (v : route) (x : route) : bool :=
+Definition hit (fx : fixes) (r : rule) (v : route) (x : route) : bool :=
   match rpat v with
-  | Some p => has_pat p x && sameas (rt_rule x) r
+  | Some p => has_pat p x && del_matcher fx r v x
   | None => false
   end.
 
-Lemma del1_spec d L r v : ReprV d L -> ReprF d ->
-  (exists x, In x L /\ hit r v x = true) ->
-  exists d', m_del1 d r v = inl d' /\ ReprV d' (filter (fun x => negb (hit r v x)) L) /\ ReprF d'.
+Lemma del1_spec fx d L r v : ReprV d L -> ReprF d ->
+  (exists x, In x L /\ hit fx r v x = true) ->
+  exists d', m_del1 fx d r v = inl d' /\ ReprV d' (filter (fun x => negb (hit fx r v x)) L) /\ ReprF d'.
 Proof.
   intros R F (x0 & Hx0 & Hh0). unfold m_del1. fold (rpat v). unfold hit in *.
   destruct (rpat v) as [p|] eqn:EP; [|discriminate].
-  set (f := fun x : route => sameas (rt_rule x) r).
+  set (f := del_matcher fx r v).
   pose proof (delete_spec d p f (rv_sorted _ _ R)) as D. cbv zeta in D.
   rewrite (rv_vals _ _ R) in D.
   destruct (delete d p f) as [d'|].
